@@ -410,6 +410,42 @@ def check_bundle_vs_singles(makers):
     return None
 
 
+def check_bundle_on_the_wire(makers):
+    """the same comparison with the bundle travelling as bytes: produced frame -> the real parser (the closure that slices the members out by
+    the offset table) -> request -> the reply frame -> the real parser -> member replies; the references are the members sent one by one"""
+    import cpppo
+    from . import sim
+    from cpppo.server.enip import logix
+    if not makers:
+        return None
+    cfg = {'A': ('INT', 6), 'BB': ('INT', 4)}
+    lx = sim.fresh(cfg, max_bytes=6)
+    sim.write_tag(lx, 'A', 0, 6, 0xc3, [1, 2, 3, 4, 5, 6])
+    singles = []
+    for mk in makers:
+        d = mk()
+        dispatch_single(lx, d)
+        singles.append((d.get('service'), d.get('status'), bytes(d.get('input', b''))))
+    state1 = dict((k, sim.tag_values(k)) for k in cfg)
+    lx = sim.fresh(cfg, max_bytes=6)
+    sim.write_tag(lx, 'A', 0, 6, 0xc3, [1, 2, 3, 4, 5, 6])
+    raw = bytes(logix.Logix.produce(cpppo.dotdict(service=0x0A, path={'segment': [{'class': 2}, {'instance': 1}]}, multiple={'request': [mk() for mk in makers]})))
+    b = sim._parse_cip(raw)
+    if len(b.multiple.request) != len(makers):
+        return 'the parsed bundle holds %d requests, %d were encoded' % (len(b.multiple.request), len(makers))
+    lx.request(b)
+    r = sim._parse_cip(b.input)
+    state2 = dict((k, sim.tag_values(k)) for k in cfg)
+    if r.status != 0 or 'multiple' not in r:
+        return 'bundle reply status %r' % r.status
+    got = [(m.get('service'), m.get('status'), bytes(m.get('input', b''))) for m in r.multiple.request]
+    if [g[:2] for g in got] != [x[:2] for x in singles]:
+        return 'member replies (service, status) differ: bundled %r singles %r' % ([g[:2] for g in got], [x[:2] for x in singles])
+    if state1 != state2:
+        return 'tag state differs: bundled %r singles %r' % (state2, state1)
+    return None
+
+
 def e2e_bundle_vs_singles(ops):
     from . import netsim
     from cpppo.server.enip import client
@@ -447,7 +483,7 @@ def bounded(tier, seed):
             break
         makers = [pool[i] for i in combo]
         ev += 2
-        for what, fn in (('produce', check_produce), ('bundle-vs-singles', check_bundle_vs_singles)):
+        for what, fn in (('produce', check_produce), ('bundle-vs-singles', check_bundle_vs_singles), ('bundle on the wire', check_bundle_on_the_wire)):
             if what == 'bundle-vs-singles' and not makers:
                 continue
             try:
